@@ -20,8 +20,16 @@
    (3) [c01_linearizable]: the linearization itself, constructed from the trace (Herlihy-Wing):
        a legal sequential FIFO history containing each returned operation once with its
        result, each placed inside its call interval (hence respecting real-time order).
-   The consequences named in the property are [c01_no_loss_dup_invent] and (1). *)
-From Got Require Import Base Queue QueueProofs.
+   (4) [c01_herlihy_wing_linearizable]: the textbook, purely relational statement
+       (lib/Linearizability.v: histories of invocation/response events, extension by responses,
+       complete(), per-thread equivalence to a legal sequential history, real-time order
+       <_H contained in <_S), for the history of invocations and returns of every run;
+       [c01_hw_linearization_witness] names the H' and S that are used;
+       [c01_fifo_legal_consequences]: what legality means for the values.
+   The consequences named in the property are [c01_no_loss_dup_invent], (1) and
+   [c01_fifo_legal_consequences]. *)
+From Got Require Import Base Queue QueueProofs Linearizability QueueHistory QueueLinProofs QueueHwCheck QueueHwCheckProofs.
+From Coq Require Import Permutation.
 Local Open Scope nat_scope.
 
 Theorem c01_queue_invariant :
@@ -83,6 +91,78 @@ Theorem c01_linearizable :
 Proof. exact q_linearizable. Qed.
 Print Assumptions c01_linearizable.
 
+(* Textbook linearizability (Herlihy & Wing 1990), relational, nothing left in prose.
+   [q_history tr]: the subsequence of invocation events (HInv j op: thread j calls Push v / Pop)
+   and response events (HRes j r: the call of thread j returns) of the trace, internal steps
+   and linearization-point markers erased.  [q_fifo_spec pre]: the sequential FIFO queue
+   initially holding pre (state = list; Push v appends; Pop removes and returns the head,
+   returns nil iff the list is empty).  Unfolded (lib/Linearizability.v), the statement is:
+     H is well-formed (every thread alternates invocation, response, ...), and there are
+     H' = H ++ (responses to some pending invocations), well-formed, and S such that
+     - S is sequential (inv, its res, inv, its res, ...) and every response in S is the one
+       the FIFO step function gives, starting from pre                          [hw_legal]
+     - for every thread t, complete(H')|t = S|t                                 [hw_equiv]
+       (hence S is a permutation of complete(H'): c01_hw_linearization_witness)
+     - for all operations a = (thread, call index), b: if the response of a precedes the
+       invocation of b in H (and b occurs in S -- automatic when b returned in H), then the
+       response of a precedes the invocation of b in S                          [hw_realtime] *)
+Theorem c01_herlihy_wing_linearizable :
+  forall pre progs sched,
+    hw_linearizable (q_history (q_trace (q_init pre progs) sched)) (q_fifo_spec pre).
+Proof. exact q_hw_linearizable. Qed.
+Print Assumptions c01_herlihy_wing_linearizable.
+
+(* the same with the witnesses named: H' completes exactly the Pushes whose link CAS has
+   happened ([q_hw_ext]); S lists the operations in the order of their linearization points
+   ([q_hw_seq] = the operations of q_lin, each as inv;res) *)
+Theorem c01_hw_linearization_witness :
+  forall pre progs sched,
+    let tr := q_trace (q_init pre progs) sched in
+    let H := q_history tr in
+    let H' := H ++ q_hw_ext tr in
+    let S := q_hw_seq tr in
+    hw_wf H /\
+    hw_extension H H' /\
+    hw_legal (q_fifo_spec pre) S /\
+    hw_equiv (hw_complete H') S /\
+    Permutation (hw_complete H') S /\
+    hw_realtime H S.
+Proof. exact q_hw_witnessed. Qed.
+Print Assumptions c01_hw_linearization_witness.
+
+(* "consequently": in every legal sequential history S of the FIFO specification -- so in
+   every linearization of every run -- the values popped, in the order of S, followed by
+   some rest (the final content) are exactly the initial content followed by the values
+   pushed, in the order of S: nothing lost, duplicated or invented, first in first out.  And
+   a Pop answers nil in S only in the empty state (definition of q_fifo_step); by
+   [hw_realtime]/(2) that point of S lies inside the call interval of that Pop. *)
+Theorem c01_fifo_legal_consequences :
+  forall pre (S : hw_history q_op q_res),
+    hw_legal (q_fifo_spec pre) S ->
+    exists rest, pre ++ q_seq_pushes S = q_seq_pops S ++ rest.
+Proof. exact q_fifo_legal_consequences. Qed.
+Print Assumptions c01_fifo_legal_consequences.
+
+(* the definition is not trivially satisfiable: thread 0's Push 1 has returned, then thread 1
+   calls Pop and gets nil.  Legality alone would accept S = Pop -> nil; Push 1 -- it is the
+   real-time clause that refuses this history. *)
+Theorem c01_hw_definition_rejects :
+  ~ hw_linearizable
+      [HInv 0 (QPush 1%Z); HRes 0 QRPush; HInv 1 QPop; HRes 1 (QRPop None)]
+      (q_fifo_spec []).
+Proof. exact q_hw_rejects_stale_nil. Qed.
+Print Assumptions c01_hw_definition_rejects.
+
+(* the executable checker that is run (extracted) on the implementation's histories, next to
+   the python brute-force monitor, is sound for the textbook definition.  (It only tries
+   H' = H, which is complete on histories in which every call returned -- those of the
+   harness; it is not claimed to be complete in general.) *)
+Theorem c01_hw_check_sound :
+  forall pre (H : hw_history q_op q_res),
+    q_hw_check pre H = true -> hw_linearizable H (q_fifo_spec pre).
+Proof. exact q_hw_check_sound. Qed.
+Print Assumptions c01_hw_check_sound.
+
 (* non-vacuity: a concrete 3-thread run with a lagging tail that is helped, a failed CAS,
    an empty Pop and a successful Pop *)
 Example c01_nonvacuous :
@@ -93,3 +173,48 @@ Example c01_nonvacuous :
   q_abs (q_final s0 sched) = [6%Z] /\
   q_lin (q_trace s0 sched) = [(1, SPopNone); (0, SPush 5%Z); (2, SPush 6%Z); (1, SPopSome 5%Z)].
 Proof. vm_compute. intuition. Qed.
+
+(* non-vacuity of the textbook statement: three threads with overlapping calls.  Thread 0
+   invokes Push 5 first and is then delayed; thread 1 runs Push 6 to completion; thread 2 runs
+   Pop to completion (it returns 6); then thread 0 finishes.  The linearization S puts the
+   operation that was invoked FIRST last: S = Push 6 (t1); Pop -> 6 (t2); Push 5 (t0).  The
+   real-time clause is not vacuous either: t1's Push returned (position 2 of H) before t2's Pop
+   was invoked (position 3), and S keeps that order. *)
+Example c01_hw_nonvacuous :
+  let s0 := q_init [] [[QPush 5%Z]; [QPush 6%Z]; [QPop]] in
+  let tr := q_trace s0 [0; 1;1;1;1;1;1; 2;2;2;2;2;2; 0;0;0;0;0] in
+  q_history tr = [HInv 0 (QPush 5%Z); HInv 1 (QPush 6%Z); HRes 1 QRPush;
+                  HInv 2 QPop; HRes 2 (QRPop (Some 6%Z)); HRes 0 QRPush] /\
+  q_hw_ext tr = [] /\
+  q_hw_seq tr = [HInv 1 (QPush 6%Z); HRes 1 QRPush; HInv 2 QPop; HRes 2 (QRPop (Some 6%Z));
+                 HInv 0 (QPush 5%Z); HRes 0 QRPush] /\
+  hw_inv_pos (q_history tr) (0, 0) = Some 0 /\ hw_inv_pos (q_hw_seq tr) (0, 0) = Some 4 /\
+  hw_precedes (q_history tr) (1, 0) (2, 0) /\ hw_precedes (q_hw_seq tr) (1, 0) (2, 0) /\
+  ~ hw_precedes (q_history tr) (0, 0) (1, 0).
+Proof.
+  cbn zeta. repeat (split; [vm_compute; reflexivity|]).
+  split; [exists 2, 3; vm_compute; repeat split; lia|].
+  split; [exists 1, 2; vm_compute; repeat split; lia|].
+  intros (i & j & Hi & Hj & Hlt). vm_compute in Hi, Hj. inversion Hi; inversion Hj; lia.
+Qed.
+
+(* ... and of the extension: thread 0's Push 5 is linked but has not returned, thread 1's Pop
+   took the 5 and returned, thread 2's Pop is pending without effect.  H' appends the response
+   of the Push, complete() drops the pending Pop, S = Push 5 (t0); Pop -> 5 (t1). *)
+Example c01_hw_nonvacuous_pending :
+  let s0 := q_init [] [[QPush 5%Z]; [QPop]; [QPop]] in
+  let tr := q_trace s0 [0;0;0;0;0; 1;1;1;1;1;1;1;1;1;1;1; 2] in
+  q_history tr = [HInv 0 (QPush 5%Z); HInv 1 QPop; HRes 1 (QRPop (Some 5%Z)); HInv 2 QPop] /\
+  q_hw_ext tr = [HRes 0 QRPush] /\
+  hw_complete (q_history tr ++ q_hw_ext tr)
+    = [HInv 0 (QPush 5%Z); HInv 1 QPop; HRes 1 (QRPop (Some 5%Z)); HRes 0 QRPush] /\
+  q_hw_seq tr = [HInv 0 (QPush 5%Z); HRes 0 QRPush; HInv 1 QPop; HRes 1 (QRPop (Some 5%Z))].
+Proof. vm_compute. repeat split. Qed.
+
+Example c01_hw_check_examples :
+  let s0 := q_init [] [[QPush 5%Z]; [QPush 6%Z]; [QPop]] in
+  let tr := q_trace s0 [0; 1;1;1;1;1;1; 2;2;2;2;2;2; 0;0;0;0;0] in
+  q_hw_check [] (q_history tr) = true /\
+  qh_verify [] (q_history tr) (q_hw_ext tr) (q_hw_seq tr) = true /\
+  q_hw_check [] [HInv 0 (QPush 1%Z); HRes 0 QRPush; HInv 1 QPop; HRes 1 (QRPop None)] = false.
+Proof. vm_compute. repeat split. Qed.
